@@ -3,11 +3,31 @@
 //! To add items for a property: create `items/cXX.rs`, add `mod cXX;` and one line in `run`.
 use std::collections::BTreeMap;
 
+mod c02;
+mod c07;
 mod c10;
+mod c11;
+mod c14;
+mod c21;
+mod c27;
+mod c28;
+mod c35;
+mod c42;
+mod c46;
 
 pub fn run(item: &str, repo: &str, out: &str) -> Result<String, String> {
     let handlers: &[fn(&str, &str, &str) -> Option<Result<String, String>>] = &[
+        c02::run,
+        c07::run,
         c10::run,
+        c11::run,
+        c14::run,
+        c21::run,
+        c27::run,
+        c28::run,
+        c35::run,
+        c42::run,
+        c46::run,
     ];
     for h in handlers {
         if let Some(r) = h(item, repo, out) {
